@@ -300,3 +300,49 @@ theorem positionsFrom_length : ∀ (j : Journal) (s : Nat), (positionsFrom s j).
 theorem positions_length (j : Journal) : (positions j).length = (readAll j).length := positionsFrom_length j 1
 
 end Logrange.JournalW
+
+namespace Logrange.WriteLoopM
+open Logrange.JournalW
+
+/-- `w` holds the exact timestamp hull of the (non-empty) list `l` -/
+def HullExact (w : IW) (l : List Rec) : Prop :=
+  w.tsSet = true ∧ (∀ r ∈ l, w.minTs ≤ r.ts ∧ r.ts ≤ w.maxTs) ∧ (∃ r ∈ l, r.ts = w.minTs) ∧ (∃ r ∈ l, r.ts = w.maxTs)
+
+theorem unsetIsFlag : Generated.C01.iwrapperUnsetIsFlag = true := by decide
+
+theorem see_first (w : IW) (r : Rec) (h : w.tsSet = false) : HullExact (w.see r) [r] := by
+  simp [HullExact, IW.see, unsetIsFlag, h]
+
+theorem see_next (w : IW) (l : List Rec) (r : Rec) (h : HullExact w l) : HullExact (w.see r) (l ++ [r]) := by
+  obtain ⟨hs, hall, ⟨a, ha, hamin⟩, ⟨b, hb, hbmax⟩⟩ := h
+  have hle : w.minTs ≤ w.maxTs := by have := hall a ha; omega
+  simp only [HullExact, IW.see, unsetIsFlag, hs, ↓reduceIte, Bool.true_eq_false, or_false]
+  refine ⟨trivial, ?_, ?_, ?_⟩
+  · intro x hx
+    rcases List.mem_append.mp hx with hx | hx
+    · have := hall x hx
+      constructor <;> split <;> omega
+    · simp at hx; subst hx
+      constructor <;> split <;> omega
+  · by_cases hc : w.minTs > r.ts
+    · exact ⟨r, by simp, by simp [hc]⟩
+    · exact ⟨a, by simp [ha], by simp [hc, hamin]⟩
+  · by_cases hc : w.maxTs < r.ts
+    · exact ⟨r, by simp, by simp [hc]⟩
+    · exact ⟨b, by simp [hb], by simp [hc, hbmax]⟩
+
+theorem fold_exact : ∀ (rs : List Rec) (w : IW) (l : List Rec), HullExact w l → HullExact (rs.foldl IW.see w) (l ++ rs) := by
+  intro rs
+  induction rs with
+  | nil => intro w l h; simpa using h
+  | cons r rs ih =>
+    intro w l h
+    have := ih (w.see r) (l ++ [r]) (see_next w l r h)
+    simpa [List.append_assoc] using this
+
+/-- handing the same record out again (`Get` without `Next`, the peek of `Service.Write`) changes nothing -/
+theorem see_idem (w : IW) (r : Rec) : (w.see r).see r = w.see r := by
+  simp only [IW.see, unsetIsFlag, ↓reduceIte, Bool.true_eq_false, or_false]
+  congr 1 <;> (split <;> split <;> omega)
+
+end Logrange.WriteLoopM
